@@ -40,6 +40,11 @@ func (h *RefreshFunc) Final(ctx *sqlite.AggregateContext) {
 		ctx.ResultError(fmt.Errorf("table not found: %s", fCtx.tableName))
 		return
 	}
+	if vt.Tree.Root.IsDirty() {
+		// replacing the tree would silently drop the open transaction's rows
+		ctx.ResultError(fmt.Errorf("cannot refresh %s: it has uncommitted changes", fCtx.tableName))
+		return
+	}
 	nt, err := s3db.OpenKV(h.sc.ctx, vt.S3Options, "s3db-rows")
 	if err != nil {
 		ctx.ResultError(fmt.Errorf("open: %w", err))
